@@ -299,3 +299,79 @@ Proof.
   change (map (fun x : bytes => abs_op (OWrite x))) with (map AWrite).
   exact (done_exactly_first f p0 before p after Hp0 Hok0 Hrest Hf Hdone).
 Qed.
+
+(* ---- C05, memory: what the accumulator holds is bounded by what was written ---- *)
+Definition writes (ops : list Accumulator.aop) : nat :=
+  length (filter (fun o => match o with OWrite _ => true | _ => false end) ops).
+
+Lemma payload_bytes_bound pkt : wf_pkt pkt -> (length (payload_bytes pkt) <= 184)%nat.
+Proof.
+  intro H. unfold payload_bytes, payload_of.
+  destruct (negb (has_payload pkt)); [cbn; lia|].
+  destruct (188 <? (if has_af pkt then 5 + nthN pkt 4 else 4)) eqn:E0; [cbn; lia|].
+  unfold dropN. rewrite skipn_length, H. apply N.ltb_ge in E0.
+  destruct (has_af pkt); lia.
+Qed.
+
+Lemma bytes_of_bound ps : Forall wf_pkt ps -> (length (bytes_of ps) <= 184 * length ps)%nat.
+Proof.
+  induction ps as [|p t IH]; intro H; [cbn; lia|].
+  inversion H as [|? ? Hp Ht]; subst. unfold bytes_of in *. cbn [map concat length].
+  rewrite app_length. pose proof (payload_bytes_bound p Hp). specialize (IH Ht). lia.
+Qed.
+
+Lemma a_write_packets f s pkt :
+  a_packets (fst (a_write f s pkt)) = a_packets s \/
+  a_packets (fst (a_write f s pkt)) = a_packets s ++ [pkt] \/
+  a_packets (fst (a_write f s pkt)) = [pkt].
+Proof.
+  assert (Hadd : forall ps, a_packets (fst (a_add f ps pkt)) = ps ++ [pkt]).
+  { intro ps. unfold a_add. destruct (payload_of pkt); [|reflexivity].
+    destruct (f (bytes_of (ps ++ [pkt]))) as [[|] [e|]]; reflexivity. }
+  destruct s as [|ps|ps]; cbn [a_write a_packets].
+  - destruct (has_pusi pkt); [right; right; rewrite Hadd; reflexivity|left; reflexivity].
+  - destruct (has_pusi pkt); [right; right; rewrite Hadd; reflexivity|right; left; apply Hadd].
+  - left. reflexivity.
+Qed.
+
+Lemma exec_bound f : forall ops a s n0, R a s -> Forall wf_op ops ->
+  Forall wf_pkt (a_packets s) -> (length (a_packets s) <= n0)%nat ->
+  exists a', exec f a ops = Ok a' /\ Forall wf_pkt (get_packets a') /\
+             (length (get_packets a') <= n0 + writes ops)%nat /\
+             (length (get_bytes a') <= 184 * length (get_packets a'))%nat.
+Proof.
+  induction ops as [|o t IH]; intros a s n0 HR Hwf Hps Hn.
+  - exists a. destruct (R_obs a s HR) as [Hb Hp]. cbn [exec]. split; [reflexivity|].
+    rewrite Hp, Hb. unfold a_bytes, writes. cbn [filter length].
+    split; [exact Hps|]. split; [lia|]. apply bytes_of_bound. exact Hps.
+  - inversion Hwf as [|? ? Ho Ht]; subst. cbn [exec].
+    destruct o as [pkt| | |]; cbn [step bind].
+    + destruct (write_packet_spec f a s pkt Ho HR) as [a1 [Hwp HR1]]. rewrite Hwp. cbn [bind].
+      assert (Hps1 : Forall wf_pkt (a_packets (fst (a_write f s pkt))) /\
+                     (length (a_packets (fst (a_write f s pkt))) <= S n0)%nat).
+      { destruct (a_write_packets f s pkt) as [E0|[E0|E0]]; rewrite E0.
+        - split; [exact Hps|lia].
+        - split; [apply Forall_app; split; [exact Hps|constructor; [exact Ho|constructor]]|].
+          rewrite app_length. cbn [length]. lia.
+        - split; [constructor; [exact Ho|constructor]|cbn [length]; lia]. }
+      destruct Hps1 as [Hw1 Hl1].
+      destruct (IH a1 _ (S n0) HR1 Ht Hw1 Hl1) as [a' [He [Hw' [Hl' Hb']]]].
+      exists a'. split; [exact He|]. split; [exact Hw'|]. split; [|exact Hb'].
+      unfold writes in *. cbn [filter length]. lia.
+    + destruct (IH (reset a) ANone n0 R_new Ht ltac:(constructor) ltac:(cbn; lia)) as [a' [He [Hw' [Hl' Hb']]]].
+      exists a'. split; [exact He|]. split; [exact Hw'|]. split; [|exact Hb']. unfold writes in *. cbn [filter]. exact Hl'.
+    + destruct (IH a s n0 HR Ht Hps Hn) as [a' [He [Hw' [Hl' Hb']]]].
+      exists a'. split; [exact He|]. split; [exact Hw'|]. split; [|exact Hb']. unfold writes in *. cbn [filter]. exact Hl'.
+    + destruct (IH a s n0 HR Ht Hps Hn) as [a' [He [Hw' [Hl' Hb']]]].
+      exists a'. split; [exact He|]. split; [exact Hw'|]. split; [|exact Hb']. unfold writes in *. cbn [filter]. exact Hl'.
+Qed.
+
+Lemma memory_bound f ops : Forall wf_op ops ->
+  exists a, exec f new_acc ops = Ok a /\
+            (length (get_packets a) <= writes ops)%nat /\
+            (length (get_bytes a) <= 184 * writes ops)%nat.
+Proof.
+  intro H. destruct (exec_bound f ops new_acc ANone 0 R_new H ltac:(constructor) ltac:(cbn; lia))
+    as [a [He [_ [Hl Hb]]]].
+  exists a. split; [exact He|]. split; [lia|]. lia.
+Qed.
